@@ -212,6 +212,50 @@ CHECKS = {
              "inside adaptivePredict/addDFAState; known finding: the MESSAGE of a ParseError depends on which thread parsed first). The deterministic scheduler serialises threads: it "
              "explores interleavings at the granularity of traced lines of graph_utils, graph_minimizer, ssb_decompiler, explorerscript_reader, macro, compiler utils, ssb_compiler, "
              "source_map only."),
+    "C16": dict(
+        level="other", design="4/C16",
+        technique="Lean 4 theorems about a hand-written maximal-munch model of the token rules of ExplorerScript.g4 + SsbCommon.g4 (lean/ESV/Lex; vocabulary regenerated "
+                  "from ExplorerScript.tokens, rule bodies keyed by the serialized ATN) and about the C04 literal readers + exact differential tie with the generated ANTLR lexer "
+                  "(type, text, offset of every token) + metamorphic property oracle on the real compiler (k re-renderings of every generated program)",
+        text="PARTIAL. Kernel-checked for ALL inputs, about the lexer model: a text classified as one token (punctuation, keyword/identifier, variable/macro call, INTEGER, DECIMAL, "
+             "STRING_LITERAL, MULTILINE_STRING_LITERAL) followed by ANY separator made of blanks, line breaks, line comments, block comments and line joinings - or by no separator "
+             "at a boundary the decidable predicate safeBoundary accepts - is lexed to that token and the rest is lexed as if it stood alone (skip_insertion, safe_boundary_suffices, "
+             "separator_invisible, trailing_comment_invisible incl. the unterminated block comment); hence two renderings of one token sequence with any admissible separators have the "
+             "same non-skip tokens (render_lex, layout_irrelevant_tokens). Side condition found by the proof: the text after a line joining must not continue with blanks and a form feed "
+             "(line_joining_swallows_form_feed is the kernel-checked counterexample, replayed on the real lexer). The harness printer's separator table needs_sep is proved sound "
+             "(needs_sep_sound) and compared with its Lean copy on every adjacent token pair. Literal values: every base/case/sign spelling of an integer is an INTEGER token and reads as "
+             "the same value (int_spelling_irrelevant, int_zero_spellings), leading zeros of a decimal's whole part do not change the fixed-point value (decimal_leading_zeros_irrelevant), "
+             "'...' vs \"...\" and the triple-quoted forms at any indentation read as the same string under the C04 guards (quote_style_irrelevant, multiline_form_irrelevant); thin models "
+             "of for_target_def.collect and label.collect give header_spelling_irrelevant and label_marker_irrelevant. NOT proved: that the ANTLR parser and the compiler map equal token "
+             "sequences with equal literal values to equal ops - the parser is not modelled. That step is covered by search only: quick 100 programs x 8 renderings, thorough 5000 x 20 "
+             "(layout styles x re-spelling dimensions int/dec/str/label/header/comma/pos), all compiled by the real compiler and compared field by field (ops incl. offsets and "
+             "position-mark fields, routine infos, coroutine names, source map up to positions); violations are attributed to one dimension and shrunk.",
+        note=COMMON_NOTE + "ANTLR's lexer semantics (longest match over all rules, first rule wins ties, a non-greedy sub-rule ends its rule at the first possible end, EOF inside "
+             "BLOCK_COMMENT) is modelled by hand; the tie is the per-run comparison with the real lexer on every rendered program, on corrupted renderings and on random strings "
+             "(0 mismatches on 300 000+ texts in the thorough tier). The rules DECIMAL_INTEGER/OCT_/HEX_/BIN_INTEGER (shadowed by INTEGER) are left out of the model. The ANTLR parser, "
+             "the tree visitors and the compile handlers other than the two thin header/label models are NOT modelled. String re-spellings stay inside the C04 guards (no backslashes)."),
+    "C18": dict(
+        level="other", design="4/C18",
+        technique="Lean 4 theorems about text spans (ANTLR line/column bookkeeping, offsetOf, replaceSpan) and, on the C16 lexer model, about splicing the printed form of a mark into "
+                  "a rendering + differential ties (Lean replaceSpan vs the harness' splice, Lean posOf vs ANTLR token positions) + property oracle on the real PositionMarkVisitor, "
+                  "compiler and printed form for generated programs with Position literals in every argument list of the grammar",
+        text="PARTIAL. Kernel-checked for ALL texts (lists of code points): the (line, column) ANTLR's input stream gives to a character and the line-walking offsetOf are inverse "
+             "(offset_position_inverse, position_offset_inverse); replacing the span from the first character of a literal to its LAST character inclusive - the listing's convention - "
+             "by any new text yields pre ++ new ++ post, whatever line breaks and non-ASCII characters occur (splice_local); the printed form of a mark whose name needs no escaping is the "
+             "eight-token sequence Position < 'name' , x , y > with safe inner boundaries (printed_mark_tokens), and splicing it for the pieces of a Position literal inside an admissible "
+             "rendering changes the token sequence of the C16 lexer model exactly in the tokens of that literal (splice_tokens, splice_printed_mark); the printed form reads back as the "
+             "mark (posmark_print_parse, from C04). NOT proved: that PositionMarkVisitor reports exactly one entry per position_marker context in source order with the positions of its "
+             "first and last token, and that the compiler builds the parameter from the same tokens - the visitor walks an ANTLR parse tree, which is not modelled. These are decided by "
+             "search on the real code: quick 200 / thorough 10 000 generated programs (literals in routine operations, macro bodies, macro-call arguments, with-blocks, inline-context "
+             "operations, if/while/for/switch header operations, for-loop initialiser/increment; several per line, multi-line, comments inside, both quote styles, all number spellings, "
+             "names with quotes/commas/'>'/non-ASCII/astral characters): (a) listing == printer's positions in order, (b) listing fields == literal value == every compiled parameter "
+             "stemming from the literal (field-wise, name included), (c) for up to 4 literals per program an edited mark is spliced into the delimited span and the text recompiled: all "
+             "ops, infos and coroutine names equal except that literal's parameter(s), which equal the edited mark; the listing of the new text changes in that entry only. "
+             "Known finding (1 kind): a coordinate spelled -.5 parses but makes the listing (and the compiler) raise ValueError.",
+        note=COMMON_NOTE + "ANTLR token positions (ctx.start/ctx.stop line and column, counted in code points, only \\n ends a line) are trusted and compared with Lean posOf on every "
+             "token of the generated texts; the harness printer's own position bookkeeping is trusted. Edited marks use offsets 0/2 and names without quotes or backslashes "
+             "(outside that the printed form itself is lossy: C04 known findings). The compile-time source map's own position-mark spans (ArgListCompileHandler uses the span of the "
+             "whole argument list) are C08's subject, not this property's."),
 }
 
 PENDING_REASON ="check not built yet in this round (design in DESIGN.md §4); will be claimed once its Lean model and correspondence exist"
